@@ -3,6 +3,7 @@ package scen
 import (
 	"bytes"
 	"reflect"
+	"strings"
 
 	protocol "github.com/hujm2023/go-sms-protocol"
 
@@ -25,17 +26,27 @@ func init() {
 		Pools: true,
 		Name:  "relay",
 		Props: []string{"C11"},
-		Plan:  simple(40000, 2400000),
-		Run:   runRelay,
-		Real:  []string{"relay gateway: codec framer, dispatcher / IDecode, IEncode", "receiver: codec framer, IDecode", "IEncode of the sending node for canonical images"},
-		Stub:  []string{"model peer (conformant and non-canonical images)", "two byte-preserving links with seeded cuts", "emission-order chooser for optional parameters"},
-		Rule:  "1..6 images per run of all 57 types: canonical (library-encoded), conformant (model peer) and accepted-but-non-canonical variants; non-trivial = a non-canonical variant, a link cut or a non-sorted emission order occurred; distinct = distinct event-log hash",
+		Plan: func(prop, tier string) []Batch {
+			if tier == "thorough" {
+				return []Batch{{Mode: "seeded", Count: 2400000}, {Mode: "slot-sweep-wide", Count: slotSweepCount(true), Exhaustive: true}}
+			}
+			return []Batch{{Mode: "seeded", Count: 40000}, {Mode: "slot-sweep", Count: slotSweepCount(false), Exhaustive: true}}
+		},
+		Run:  runRelay,
+		Real: []string{"relay gateway: codec framer, dispatcher / IDecode, IEncode", "receiver: codec framer, IDecode", "IEncode of the sending node for canonical images"},
+		Stub: []string{"model peer (conformant and non-canonical images)", "two byte-preserving links with seeded cuts", "emission-order chooser for optional parameters"},
+		Rule: "1..6 images per run of all 57 types: canonical (library-encoded), conformant (model peer) and accepted-but-non-canonical variants; non-trivial = a non-canonical variant, a link cut or a non-sorted emission order occurred; distinct = distinct event-log hash",
 	})
 }
 
 func runRelay(r *core.Run) {
 	c := r.C
 	defer installReorder(r)()
+	if strings.HasPrefix(r.Cfg.Mode, "slot-sweep") {
+		// every octet value at every text-slot position (see interop): canonical images must come back bit-for-bit
+		runSlotSweep(r)
+		return
+	}
 	sp := Spec()
 	proto := sp.Protos[c.Intn(len(sp.Protos))]
 	n := 1 + c.Size(5, 1)
